@@ -243,8 +243,5 @@ func TestReplay(t *testing.T) {
 }
 
 func TestWitness(t *testing.T) {
-	if known.RunDecWitness() {
-		return
-	}
 	enc.RunWitness(t)
 }
